@@ -285,6 +285,50 @@ impl Spec {
     }
   }
 
+  /// The same tree with every Cached node that lies beneath a ReplaceSource
+  /// with at least one replacement removed (replaced by its inner source).
+  pub fn without_cached_under_replace(&self) -> Spec {
+    fn go(s: &Spec, under: bool) -> Spec {
+      match s {
+        Spec::Concat { children, how } => Spec::Concat {
+          children: children.iter().map(|c| go(c, under)).collect(),
+          how: *how,
+        },
+        Spec::Replace { inner, ops } => Spec::Replace {
+          inner: Box::new(go(inner, under || !ops.is_empty())),
+          ops: ops.clone(),
+        },
+        Spec::Cached { inner } => {
+          if under {
+            go(inner, under)
+          } else {
+            Spec::Cached {
+              inner: Box::new(go(inner, under)),
+            }
+          }
+        }
+        Spec::Boxed { inner } => Spec::Boxed {
+          inner: Box::new(go(inner, under)),
+        },
+        leaf => leaf.clone(),
+      }
+    }
+    go(self, false)
+  }
+
+  pub fn has_cached_under_replace(&self) -> bool {
+    self.without_cached_under_replace() != *self
+  }
+
+  /// Follow the nodes that delegate `map()` to their inner source.
+  pub fn map_delegate(&self) -> &Spec {
+    match self {
+      Spec::Cached { inner } | Spec::Boxed { inner } => inner.map_delegate(),
+      Spec::Replace { inner, ops } if ops.is_empty() => inner.map_delegate(),
+      other => other,
+    }
+  }
+
   pub fn is_all_utf8(&self) -> bool {
     !self.contains(&|s| match s {
       Spec::RawBytes { bytes } | Spec::RawBuffer { bytes } => {
@@ -331,8 +375,45 @@ impl Source for CustomSource {
   fn size(&self) -> usize {
     self.joined.len()
   }
-  fn map(&self, _: &MapOptions) -> Option<SourceMap> {
-    self.map.clone()
+  /// A well-behaved user-defined source: its map() is derived from its own
+  /// text-less stream with the crate's encoders (what `get_map` does for the
+  /// built-in sources), so it is coherent with its chunk stream by
+  /// construction.
+  fn map(&self, options: &MapOptions) -> Option<SourceMap> {
+    self.map.as_ref()?;
+    let mut mappings = Vec::new();
+    let mut sources: Vec<String> = Vec::new();
+    let mut contents: Vec<String> = Vec::new();
+    let mut names: Vec<String> = Vec::new();
+    self.stream_chunks(
+      &rspack_sources::verif::map_options(options.columns, true),
+      &mut |_, m| mappings.push(m),
+      &mut |i, s, c| {
+        let i = i as usize;
+        if sources.len() <= i {
+          sources.resize(i + 1, String::new());
+        }
+        sources[i] = s.to_string();
+        if let Some(c) = c {
+          if contents.len() <= i {
+            contents.resize(i + 1, String::new());
+          }
+          contents[i] = c.to_string();
+        }
+      },
+      &mut |i, n| {
+        let i = i as usize;
+        if names.len() <= i {
+          names.resize(i + 1, String::new());
+        }
+        names[i] = n.to_string();
+      },
+    );
+    let s = rspack_sources::verif::encode_mappings_with(
+      options.columns,
+      mappings.into_iter(),
+    );
+    (!s.is_empty()).then(|| SourceMap::new(s, sources, contents, names))
   }
   fn to_writer(&self, writer: &mut dyn std::io::Write) -> std::io::Result<()> {
     writer.write_all(self.joined.as_bytes())
